@@ -85,3 +85,27 @@ func flushTypes(e *emitter, cfg *lib.Config, res *lib.Result, budget int) {
 		res.CorrFiles = append(res.CorrFiles, cf.WriteTo(cfg.Out, fmt.Sprintf("cases_types_%d", sh)))
 	}
 }
+
+// decodedWithAu: the decoded type of an observation as a term of ty, and the list of its nested types that accept
+// undef (the oracle of the Struct key convention); ok=false outside the model
+func decodedWithAu(o Obs) (dec, au string, ok bool) {
+	var d types.VerifTy
+	if o.Aux["dec"] == "" || json.Unmarshal([]byte(o.Aux["dec"]), &d) != nil || !lat.InModel(&d) {
+		return "", "", false
+	}
+	var aus []*types.VerifTy
+	_ = json.Unmarshal([]byte(o.Aux["au"]), &aus)
+	var gs []string
+	seen := map[string]bool{}
+	for _, a := range aus {
+		if !lat.InModel(a) {
+			continue
+		}
+		g := lat.GTy(a)
+		if !seen[g] {
+			seen[g] = true
+			gs = append(gs, g)
+		}
+	}
+	return lat.GTy(&d), lib.GList(gs, "ty"), true
+}
